@@ -1,4 +1,5 @@
 import PikaVerif.Lemmas.Barrier6
+import PikaVerif.Lemmas.BarrierT5
 /-!
 # C09 (barrier part) — `pika::barrier` releases exactly when due
 
@@ -385,5 +386,315 @@ example : ((runLog step (init 1 1) (soloLog 130)).map (fun s => (s.ph, s.phase))
 example : ((runLog step (init 2 1) (soloLog 128 ++ [.inv 1 .wait, .poll 1 0 0])).map
     (fun s => (s.ph, s.phase, decide (s.pc 1 = .polling)))) = some (128, 0, true) := by
   decide +kernel
+
+/-! # Follow-up C09t: the timed busy-wait path of `wait`, and the completion step as the code does it
+
+The theorems below are about the *fine* model `PikaVerif.BarrierT` (`Model/BarrierT.lean`):
+`wait` / `arrive_and_wait` with a non-zero `busy_wait_timeout` (busy-wait phase
+`yield_while_timeout`, then the blocking phase `yield_while`; the time-out may fire at any
+iteration), and the completion step as three separate atomic steps (completion function;
+`expected += expected_adjustment.load()`; `expected_adjustment.store(0)`) with the `fetch_sub` of
+`arrive_and_drop` *not* excluded in between by the model.  `FReachable s` = `s` is the state after
+some accepted log of the fine model: every `n`, `N`, program, interleaving, every choice of
+time-outs. -/
+
+open PikaVerif.BarrierT (FInv refines)
+
+def FReachable (s : BarrierT.St) : Prop :=
+  ∃ n N log, runLog BarrierT.step (BarrierT.init n N) log = some s
+
+theorem FReachable.finv {s : BarrierT.St} (h : FReachable s) : FInv s := by
+  obtain ⟨n, N, log, hl⟩ := h
+  exact (refines hl).2
+
+/-- **Refinement.**  Every log the fine model accepts projects — event by event, `invT ↦ inv`,
+    `spinok ↦ poll`, the adjustment load / store and the entry into the blocking phase dropped —
+    to a log the coarse model accepts, ending in the abstraction of the fine final state.  Hence
+    every theorem of the first part (`C09B_…`, stated for `Reachable`) holds for `abs s` of every
+    state of the fine model (`C09T_reachable_abs`), in particular with `wait`s that time out of
+    their busy-wait phase and with the load and the store of the adjustment as separate steps. -/
+theorem C09T_refines (n N : Nat) (log : List BarrierT.Ev) (s : BarrierT.St)
+    (h : runLog BarrierT.step (BarrierT.init n N) log = some s) :
+    runLog step (init n N) (BarrierT.projLog log) = some (BarrierT.abs s) :=
+  (refines h).1
+
+theorem C09T_reachable_abs (s : BarrierT.St) (hr : FReachable s) : Reachable (BarrierT.abs s) := by
+  obtain ⟨n, N, log, hl⟩ := hr
+  exact ⟨n, N, BarrierT.projLog log, (refines hl).1⟩
+
+/-! ## Release exactly when due, on both paths of `wait` -/
+
+/-- **Nobody leaves `wait` early, on either path.**  If thread `t` leaves its wait — by a poll of
+    the blocking phase (`c (.poll …)`) or by a poll of the busy-wait phase that makes
+    `yield_while_timeout` return `true` (`spinok`) — then the phase of its token has been published
+    and its completion function has run. -/
+theorem C09T_no_early_leave (s s' : BarrierT.St) (hr : FReachable s) (t tok seen : Nat)
+    (h : BarrierT.step s (.c (.poll t tok seen)) = some s' ∨ BarrierT.step s (.spinok t tok seen) = some s')
+    (hleft : s'.c.pc t = .retn) : s.c.tokIdx t < s.c.ph ∧ s.c.tokIdx t < s.c.compls :=
+  C09B_no_early_leave (BarrierT.abs s) (BarrierT.abs s') (C09T_reachable_abs s hr) t tok seen
+    (BarrierT.poll_abs hr.finv h) hleft
+
+/-- **A spinning waiter observes the phase flip.**  A waiter in its busy-wait phase whose phase is
+    published (fewer than 128 phases ago, the precondition of `wait`) leaves at its next poll:
+    `yield_while_timeout` returns `true`. -/
+theorem C09T_spinning_waiter_released (s : BarrierT.St) (hr : FReachable s) (t : Nat) (ht : t < s.c.n)
+    (hpc : s.c.pc t = .polling) (htm : s.timed t = true) (hb : s.blk t = false)
+    (hdone : s.c.tokIdx t < s.c.ph) (hnear : s.c.ph - s.c.tokIdx t < 128) :
+    ∃ s', BarrierT.step s (.spinok t (s.c.tok t) s.c.phase) = some s' ∧ s'.c.pc t = .retn := by
+  have hb' := hr.finv.b
+  have h1 := (hb'.tokIdxOk t).1
+  have h2 := hb'.phaseEq
+  simp only [BarrierT.abs_tok, BarrierT.abs_tokIdx, BarrierT.abs_phase, BarrierT.abs_ph] at h1 h2
+  have hne : s.c.phase ≠ s.c.tok t := by rw [h1, h2]; omega
+  refine ⟨{ s with c := { s.c with pc := upd s.c.pc t .retn } }, ?_, by simp⟩
+  simp [BarrierT.step, step, ht, hpc, htm, hb, hne]
+
+/-- **A waiter in the blocking phase is released** by its next poll after the flip (the task
+    re-polls after every `yield_k`; there is no notification to lose). -/
+theorem C09T_blocked_waiter_released (s : BarrierT.St) (hr : FReachable s) (t : Nat) (ht : t < s.c.n)
+    (hpc : s.c.pc t = .polling) (hb : s.blk t = true)
+    (hdone : s.c.tokIdx t < s.c.ph) (hnear : s.c.ph - s.c.tokIdx t < 128) :
+    ∃ s', BarrierT.step s (.c (.poll t (s.c.tok t) s.c.phase)) = some s' ∧ s'.c.pc t = .retn := by
+  have hb' := hr.finv.b
+  have h1 := (hb'.tokIdxOk t).1
+  have h2 := hb'.phaseEq
+  simp only [BarrierT.abs_tok, BarrierT.abs_tokIdx, BarrierT.abs_phase, BarrierT.abs_ph] at h1 h2
+  have hne : s.c.phase ≠ s.c.tok t := by rw [h1, h2]; omega
+  refine ⟨{ s with c := { s.c with pc := upd s.c.pc t .retn } }, ?_, by simp⟩
+  simp [BarrierT.step, step, ht, hpc, hb, hne]
+
+/-- **The flip cannot be missed, whatever happens in between.**  Once the phase of a waiter's token
+    is published, every accepted step of *any* thread — further phase stores, the waiter's own
+    unsuccessful or late polls, its time-out (`block`), yields — leaves it published, and leaves
+    the waiter's token unchanged, as long as the waiter is still in `wait`. -/
+theorem C09T_flip_never_missed (s s' : BarrierT.St) (e : BarrierT.Ev) (h : BarrierT.step s e = some s')
+    (t : Nat) (hpc : s.c.pc t = .polling) (hdone : s.c.tokIdx t < s.c.ph) :
+    s'.c.tokIdx t < s'.c.ph ∧ s'.c.tok t = s.c.tok t ∧ s'.c.tokIdx t = s.c.tokIdx t := by
+  obtain ⟨h1, h2, h3⟩ := BarrierT.fine_flip_stable h t hpc
+  exact ⟨by omega, h2, h1⟩
+
+/-- **A waiter that times out of the busy-wait phase and then blocks does not miss a flip that
+    happened in between.**  In a state where the phase of a spinning waiter's token is already
+    published (e.g. the phase store fell between its last unsuccessful poll and the time check that
+    fires), the time-out is accepted, and the first poll of the blocking phase ends the wait. -/
+theorem C09T_timeout_cannot_miss_flip (s : BarrierT.St) (hr : FReachable s) (t : Nat) (ht : t < s.c.n)
+    (hpc : s.c.pc t = .polling) (htm : s.timed t = true) (hb : s.blk t = false)
+    (hdone : s.c.tokIdx t < s.c.ph) (hnear : s.c.ph - s.c.tokIdx t < 128) :
+    ∃ s1 s2, BarrierT.step s (.block t true) = some s1 ∧
+      BarrierT.step s1 (.c (.poll t (s.c.tok t) s.c.phase)) = some s2 ∧ s2.c.pc t = .retn := by
+  have hb' := hr.finv.b
+  have h1 := (hb'.tokIdxOk t).1
+  have h2 := hb'.phaseEq
+  simp only [BarrierT.abs_tok, BarrierT.abs_tokIdx, BarrierT.abs_phase, BarrierT.abs_ph] at h1 h2
+  have hne : s.c.phase ≠ s.c.tok t := by rw [h1, h2]; omega
+  refine ⟨{ s with blk := upd s.blk t true },
+    { s with blk := upd s.blk t true, c := { s.c with pc := upd s.c.pc t .retn } }, ?_, ?_, by simp⟩
+  · simp [BarrierT.step, ht, hpc, htm, hb]
+  · simp [BarrierT.step, step, ht, hpc, hne]
+
+/-! ## The completion step in three steps -/
+
+/-- **Nothing can interleave with the adjustment.**  While a thread is between its completion call
+    and the store `expected_adjustment = 0` (sub-states `cdone`, `adjd`), the expected count of the
+    phase is used up, no other thread is inside an arriving operation (so nobody reads the plain
+    member `expected` that is being written), and in particular no thread is at the `fetch_sub` of
+    `arrive_and_drop`: the event `adj` is not enabled for any thread.  This is the fact the first
+    model assumed ("one atomic block by the client preconditions"); here it is a theorem about the
+    model in which load and store are separate steps. -/
+theorem C09T_adjust_window_exclusive (s : BarrierT.St) (hr : FReachable s) (t : Nat)
+    (hx : s.wx t ≠ .none) :
+    t < s.c.n ∧ s.c.count = 0 ∧ (∀ t', t' < s.c.n → t' ≠ t → arriving (s.c.pc t') = false) ∧
+    (∀ t', BarrierT.step s (.c (.adj t')) = none) := by
+  have hi := hr.finv
+  have hpub := hi.j.wxPub t hx
+  have hwin := BarrierT.win_of_wx hi hx
+  have htn : t < s.c.n := (hi.b.winConv t (by simpa using hwin)).2.1
+  obtain ⟨hc, _, hoth, _⟩ := C09B_last_only_after_all (BarrierT.abs s) (C09T_reachable_abs s hr) t htn
+    (by simp [isWin, hpub])
+  refine ⟨htn, hc, hoth, ?_⟩
+  intro t'
+  simp only [BarrierT.step, step]
+  split
+  · rename_i hg
+    exfalso
+    by_cases he : t' = t
+    · subst he; rw [hg.2] at hpub; simp [isPub] at hpub
+    · have := hoth t' hg.1 he
+      simp only [BarrierT.abs_pc] at this
+      rw [hg.2] at this; simp [arriving] at this
+  · rfl
+
+/-- **No drop is ever lost**: the ghost counting `fetch_sub`s overwritten by the store of `0`
+    stays zero in every reachable state. -/
+theorem C09T_no_lost_drop (s : BarrierT.St) (hr : FReachable s) : s.lost = 0 := hr.finv.j.lost0
+
+/-- **The load sees all drops of the phase and nothing else.**  The adjustment load of the
+    completion step reads exactly the number of `arrive_and_drop` calls of the phase, `expected`
+    still is the phase's expected count, and the new value is their difference. -/
+theorem C09T_adjust_exact (s s' : BarrierT.St) (hr : FReachable s) (t a e : Nat)
+    (h : BarrierT.step s (.adjLoad t a e) = some s') :
+    a = s.c.drops ∧ s.c.expected = s.c.e0 ∧ e = s.c.e0 - s.c.drops := by
+  simp only [BarrierT.step] at h
+  split at h
+  · rename_i hg
+    obtain ⟨_, hx, ha, he⟩ := hg
+    obtain ⟨h1, h2⟩ := hr.finv.j.cdoneEq t hx
+    exact ⟨by omega, h1, by rw [he, ha, h1, h2]⟩
+  · simp at h
+
+/-- **The store overwrites exactly what was loaded**: at `expected_adjustment.store(0)` the
+    variable still holds the loaded value (the drops of the phase), `expected` is the phase's count
+    minus its drops, and afterwards the adjustment is zero for the next phase. -/
+theorem C09T_drop (s s' : BarrierT.St) (hr : FReachable s) (t : Nat)
+    (h : BarrierT.step s (.adjStore t) = some s') :
+    s.c.adj = s.c.drops ∧ s'.c.expected = s.c.e0 - s.c.drops ∧ s'.c.adj = 0 ∧ s'.lost = 0 := by
+  have hi' := BarrierT.finv_step s s' _ hr.finv h
+  simp only [BarrierT.step] at h
+  split at h
+  · split at h
+    · rename_i a hx
+      simp only [Option.some.injEq] at h
+      obtain ⟨h1, h2⟩ := hr.finv.j.adjdVal t a hx
+      have h3 := hr.finv.j.adjdEq t a hx
+      have h4 := hi'.j.lost0
+      subst h
+      exact ⟨by omega, h2, rfl, h4⟩
+    · simp at h
+  · simp at h
+
+/-! ## Progress of the fine model -/
+
+/-- The fine model is *quiescent* when the only events it accepts are a thread starting a new
+    operation, ending its program, or a poll of `wait` that finds the phase unchanged.  (The
+    time-out of a busy-wait phase is an internal step: real time passes.) -/
+def FQuiescent (s : BarrierT.St) : Prop :=
+  ∀ e s', BarrierT.step s e = some s' →
+    (∃ t o, e = .c (.inv t o)) ∨ (∃ t o, e = .invT t o) ∨ (∃ t, e = .c (.done t)) ∨
+    (∃ t tok seen, e = .c (.poll t tok seen) ∧ s'.c.pc t = .polling)
+
+/-- **Progress on both paths.**  In every reachable quiescent state of the fine model every thread
+    is between operations, finished, or polling in the *blocking* phase of `wait` for a phase whose
+    byte still equals its token.  In particular no thread is stuck inside `arrive`, inside the
+    completion step (between any two of its three steps), or in a busy-wait phase. -/
+theorem C09T_progress (s : BarrierT.St) (hr : FReachable s) (hq : FQuiescent s) :
+    ∀ t, t < s.c.n → s.c.pc t = .idle ∨ s.c.pc t = .fin ∨
+      (s.c.pc t = .polling ∧ s.blk t = true ∧ s.c.phase = s.c.tok t) := by
+  have hi := hr.finv
+  intro t ht
+  have en : ∀ e, BarrierT.step s e ≠ none → (∀ t o, e ≠ .c (.inv t o)) → (∀ t o, e ≠ .invT t o) →
+      (∀ t, e ≠ .c (.done t)) → (∀ t a b, e ≠ .c (.poll t a b)) → False := by
+    intro e hne h1 h2 h3 h4
+    cases hs : BarrierT.step s e with
+    | none => exact hne hs
+    | some s' =>
+    rcases hq e s' hs with ⟨t, o, h⟩ | ⟨t, o, h⟩ | ⟨t, h⟩ | ⟨t, a, b, h, _⟩
+    · exact h1 t o h
+    · exact h2 t o h
+    · exact h3 t h
+    · exact h4 t a b h
+  cases hp : s.c.pc t
+  case idle => exact Or.inl rfl
+  case fin => exact Or.inr (Or.inl rfl)
+  case polling =>
+    refine Or.inr (Or.inr ⟨rfl, ?_⟩)
+    cases hbk : s.blk t
+    · exact (en (.block t (s.timed t)) (by simp [BarrierT.step, ht, hp, hbk]) (by simp) (by simp)
+        (by simp) (by simp)).elim
+    · refine ⟨rfl, ?_⟩
+      have hs : BarrierT.step s (.c (.poll t (s.c.tok t) s.c.phase)) =
+          some { s with c := { s.c with pc := upd s.c.pc t (if s.c.phase = s.c.tok t then .polling else .retn) } } := by
+        simp [BarrierT.step, step, ht, hp, hbk]
+      rcases hq _ _ hs with ⟨_, _, h⟩ | ⟨_, _, h⟩ | ⟨_, h⟩ | ⟨t', a, b, h, hpc⟩
+      · simp at h
+      · simp at h
+      · simp at h
+      · simp only [BarrierT.Ev.c.injEq, Ev.poll.injEq] at h
+        obtain ⟨rfl, _, _⟩ := h
+        simp only [upd_same] at hpc
+        by_cases he : s.c.phase = s.c.tok t
+        · exact he
+        · simp [he] at hpc
+  case want u =>
+    exact (en (.c (.load t s.c.phase s.c.expected)) (by simp [BarrierT.step, step, ht, hp]) (by simp) (by simp) (by simp) (by simp)).elim
+  case wantDrop =>
+    exact (en (.c (.adj t)) (by simp [BarrierT.step, step, ht, hp]) (by simp) (by simp) (by simp) (by simp)).elim
+  case arr u =>
+    have hb := hi.b
+    have hu : 1 ≤ u := by have := hb.shape t; rw [BarrierT.abs_pc, hp] at this; exact this
+    have hrem : 1 ≤ rem ((BarrierT.abs s).pc t) := by rw [BarrierT.abs_pc, hp]; exact hu
+    have hwn := no_win_of_rem hb t ht hrem
+    have habs : BarrierT.abs s = s.c := BarrierT.abs_eq_of_none (by simpa using hwn)
+    rw [habs] at hb
+    have hexp := (hb.noWin (by simpa using hwn)).1
+    have hc0 := hb.c0
+    have hle := le_sumTo (f := fun u => rem (s.c.pc u)) ht
+    have hrt : rem (s.c.pc t) = u := by rw [hp]; rfl
+    have he : 1 ≤ s.c.expected := by unfold Remsum at hc0; simp only [hrt] at hle; omega
+    exact (en (.c (.start t 0)) (by simp [BarrierT.step, step, ht, hp, hu]; omega) (by simp) (by simp) (by simp) (by simp)).elim
+  case won u r =>
+    exact (en (.compl t) (by simp [BarrierT.step, ht, hp]) (by simp) (by simp) (by simp) (by simp)).elim
+  case pub u r =>
+    cases hx : s.wx t
+    case none =>
+      exact (en (.c (.publish t (fullB (s.c.tok t)) s.c.expected)) (by simp [BarrierT.step, step, ht, hp, hx]) (by simp) (by simp) (by simp) (by simp)).elim
+    case cdone =>
+      exact (en (.adjLoad t s.c.adj (s.c.expected - s.c.adj)) (by simp [BarrierT.step, ht, hx]) (by simp) (by simp) (by simp) (by simp)).elim
+    case adjd a =>
+      exact (en (.adjStore t) (by simp [BarrierT.step, ht, hx]) (by simp) (by simp) (by simp) (by simp)).elim
+  case retn =>
+    exact (en (.c (.ret t)) (by simp [BarrierT.step, step, ht, hp]) (by simp) (by simp) (by simp) (by simp)).elim
+  case try2 u cur r m =>
+    by_cases hv : s.c.tk r cur = halfB (s.c.tok t)
+    · exact (en (.c (.cas2 t cur r .up)) (by simp [BarrierT.step, step, ht, hp, hv]) (by simp) (by simp) (by simp) (by simp)).elim
+    · exact (en (.c (.cas2 t cur r (.miss (s.c.tk r cur)))) (by simp [BarrierT.step, step, ht, hp, hv]) (by simp) (by simp) (by simp) (by simp)).elim
+  case «try» u cur r m =>
+    by_cases hm : m ≤ 1
+    · exact (en (.c (.last t (s.c.tok t) s.c.expected)) (by simp [BarrierT.step, step, ht, hp, hm]) (by simp) (by simp) (by simp) (by simp)).elim
+    · have hm' : 1 < m := by omega
+      generalize hc : (if cur = (m + 1) / 2 then 0 else cur) = c
+      by_cases hl : c = (m + 1) / 2 - 1 ∧ m % 2 = 1
+      · by_cases hv : s.c.tk r c = s.c.tok t
+        · exact (en (.c (.cas t c r .up)) (by have := hl.1; subst this; simp [BarrierT.step, step, ht, hp, hm', hc, hl, hv]) (by simp) (by simp) (by simp) (by simp)).elim
+        · exact (en (.c (.cas t c r (.miss (s.c.tk r c)))) (by have := hl.1; subst this; simp [BarrierT.step, step, ht, hp, hm', hc, hl, hv]) (by simp) (by simp) (by simp) (by simp)).elim
+      · by_cases hv : s.c.tk r c = s.c.tok t
+        · exact (en (.c (.cas t c r .half)) (by simp [BarrierT.step, step, ht, hp, hm', hc, hl, hv]) (by simp) (by simp) (by simp) (by simp)).elim
+        · by_cases hv2 : s.c.tk r c = halfB (s.c.tok t)
+          · exact (en (.c (.cas t c r .seen)) (by simp [BarrierT.step, step, ht, hp, hm', hc, hl, hv, hv2, halfB_ne]) (by simp) (by simp) (by simp) (by simp)).elim
+          · exact (en (.c (.cas t c r (.miss (s.c.tk r c)))) (by simp [BarrierT.step, step, ht, hp, hm', hc, hl, hv, hv2, halfB_ne]) (by simp) (by simp) (by simp) (by simp)).elim
+
+/-! ## Non-vacuity of the follow-up theorems -/
+
+/-- two participants; thread 0 waits with a time-out that fires after one unsuccessful poll, the
+    phase store of thread 1 (completion step in three steps) falls between that poll and the
+    time-out, the first poll of the blocking phase releases thread 0; thread 1 itself waits in a
+    busy-wait phase that sees the flip -/
+def exampleLogT : List BarrierT.Ev :=
+  [.invT 0 .aw, .c (.load 0 0 2), .c (.start 0 0), .c (.cas 0 0 0 .half), .c (.poll 0 0 0),
+   .invT 1 .aw, .c (.load 1 0 2), .c (.start 1 0), .c (.cas 1 0 0 .seen), .c (.cas2 1 0 0 .up),
+   .c (.last 1 0 2), .compl 1, .adjLoad 1 0 2, .adjStore 1, .c (.publish 1 2 2),
+   .block 0 true, .c (.poll 0 0 2), .c (.ret 0), .spinok 1 0 2, .c (.ret 1)]
+
+example : (runLog BarrierT.step (BarrierT.init 2 2) exampleLogT).isSome = true := by decide
+
+/-- a state inside the adjustment window exists (`C09T_adjust_window_exclusive` is not vacuous) -/
+example : ∃ s, runLog BarrierT.step (BarrierT.init 2 2) (exampleLogT.take 13) = some s ∧ s.wx 1 = .adjd 0 := by
+  refine ⟨_, rfl, ?_⟩
+  decide
+
+/-- an untimed wait must enter the blocking phase before its first poll, and a poll of the
+    busy-wait phase that sees the flip is `spinok`, not `poll`: both logs are rejected -/
+example : (runLog BarrierT.step (BarrierT.init 1 1) [.c (.inv 0 .wait), .c (.poll 0 0 0)]).isSome = false := by decide
+example : (runLog BarrierT.step (BarrierT.init 2 2) (exampleLogT.take 15 ++ [.c (.poll 0 0 2)])).isSome = false := by
+  decide
+
+/-- The model does **not** build the atomicity of the adjustment in: put a thread at the
+    `fetch_sub` of `arrive_and_drop` while another one is between the load and the store (no
+    well-formed client gets there — the standard makes calling `arrive_and_drop` during the
+    completion step undefined — and `C09T_adjust_window_exclusive` proves it unreachable), and the
+    two-step code loses the drop: the `fetch_sub` is accepted and the store overwrites it. -/
+example : ((runLog BarrierT.step (BarrierT.init 2 2) (exampleLogT.take 13)).bind fun s =>
+      (runLog BarrierT.step { s with c := { s.c with pc := upd s.c.pc 0 .wantDrop } }
+        [.c (.adj 0), .adjStore 1]).map fun s' => (s'.lost, s'.c.adj, s'.c.expected)) = some (1, 0, 2) := by
+  decide
 
 end PikaVerif.C09Barrier
